@@ -801,7 +801,7 @@ class C16(LiftProp):
                 c["chains"][k][side][1] = rng.choice([end - 1, max(0, end - start), max(0, end - start - 1), rng.randint(0, end - 1)])
                 c["kind"] = "size-below-end"
                 yield c
-            elif rng.random() < 0.1 and case["chains"]:
+            elif rng.random() < 0.2 and case["chains"]:
                 # records that run PAST the declared end (a block or a gap enlarged, header untouched), on one side or on
                 # both: no machine may be built, else it returns coordinates beyond the extent and possibly the size
                 c = copy.deepcopy(case)
@@ -809,9 +809,15 @@ class C16(LiftProp):
                 bl = c["chains"][k]["blocks"]
                 j = rng.randrange(len(bl))
                 grow = rng.choice([1, 2, 7, 1000, c["chains"][k]["ref"][1], c["chains"][k]["qry"][1]])
+                multi = [i_ for i_, c_ in enumerate(c["chains"]) if len(c_["blocks"]) >= 2]
+                if multi and rng.random() < 0.7:
+                    k = rng.choice(multi)
+                    bl = c["chains"][k]["blocks"]
+                    j = rng.randrange(len(bl) - 1)
+                    grow = rng.choice([1, 2, 7, 1000, c["chains"][k]["ref"][1], c["chains"][k]["qry"][1]])
                 field = rng.choice([0, 0, 1, 2]) if j + 1 < len(bl) else 0
                 bl[j][field] = min(U64, bl[j][field] + max(1, grow))
-                if field == 0 and j + 1 < len(bl) and rng.random() < 0.5:
+                if field == 0 and j + 1 < len(bl) and rng.random() < 0.7:
                     # ... and the gaps behind the enlarged block "take the surplus back" modulo 2^64: every sum is right
                     # again in wrapping arithmetic, and the block still runs past its extent (and possibly the contig)
                     g = max(1, grow)
@@ -1609,6 +1615,16 @@ class C12(Prop):
             if rng.random() < 0.04 and lines:
                 n = rng.choice([65536, 65537, 70000])
                 lines[rng.randrange(len(lines))] = rng.choice(["chain 0 " + "N" * n + " 9 + 0 9 b 9 + 0 9 1", "x" * n])
+            if rng.random() < 0.25 and lines:
+                # trailing white space before the terminator, and lines of white space only: a line is returned WITHOUT
+                # its LF / CRLF and with everything else
+                # (not a trailing CR: "x\r" + LF IS the CRLF-terminated line "x")
+                ws = rng.choice([" ", "\t", "  ", "\r ", "\u00a0", "\u3000", "\x0b", "\x0c", " \t "])
+                if rng.random() < 0.7:
+                    k_ = rng.randrange(len(lines))
+                    lines[k_] = lines[k_] + ws
+                else:
+                    lines.insert(rng.randint(0, len(lines)), ws)
             if rng.random() < 0.1 and lines:
                 # a decorated first line (byte order mark, comment marker, stray blank): the very first bytes of
                 # the stream, which every chunk schedule cuts differently
